@@ -270,4 +270,220 @@ theorem C26_accepts_sound {ls : List Label} (h : ts.accepts ls = true) :
   obtain ⟨st, hrun⟩ := (TS.accepts_iff ts ls).1 h
   exact ⟨st, hrun, TS.reachable_of_run ts hrun, C26_inv (TS.reachable_of_run ts hrun)⟩
 
+/-! ### deadlock freedom -/
+
+/-- thread `t` can take a step -/
+def CanStep (st : St) (t : Tid) : Prop := ∃ l : Label, l.tid = some t ∧ (step st l).isSome = true
+
+theorem owner_of_holds {st : St} (hi : Inv st) {u : Tid} {s : Sid} (hh : 0 < (st.pc u).holds s) :
+    (st.ent s).owner = some u := by
+  have := hi.lock.ent.1 s u
+  split at this
+  · assumption
+  · omega
+
+theorem canStep_regRel {st : St} (hi : Inv st) {u : Tid} {n : Pc} (hp : st.pc u = .inReg n) : CanStep st u := by
+  have ho : st.reg.owner = some u := ((hi.lock.reg u).1).2 (by simp [hp, Pc.depth])
+  exact ⟨.regRel u, rfl, by simp [step, hp, Lock.release, ho]⟩
+
+theorem canStep_entRel {st : St} (hi : Inv st) {u : Tid} {s : Sid} (hh : 0 < (st.pc u).holds s)
+    (hp : (∃ c, st.pc u = .cRel s c) ∨ st.pc u = .lostRel s ∨ st.pc u = .finRel s ∨ st.pc u = .delRel s) :
+    CanStep st u := by
+  have ho := owner_of_holds hi hh
+  refine ⟨.entRel u s, rfl, ?_⟩
+  have hr : ∃ l, (st.ent s).release u = some l := by
+    unfold RLock.release; rw [if_pos ho]; split <;> exact ⟨_, rfl⟩
+  obtain ⟨l, hl⟩ := hr
+  rcases hp with ⟨c, hp⟩ | hp | hp | hp <;> simp [step, hl, hp]
+
+/-- a thread about to take the registry lock: it, or the holder of that lock, can step -/
+theorem progress_reg {st : St} (hi : Inv st) {t : Tid} (hne : st.pc t ≠ .idle)
+    (hop : (regOp st (st.pc t)).isSome = true) : ∃ u, st.pc u ≠ .idle ∧ CanStep st u := by
+  cases ho : st.reg.owner with
+  | none =>
+    refine ⟨t, hne, .regAcq t, rfl, ?_⟩
+    cases hr : regOp st (st.pc t) with
+    | none => rw [hr] at hop; cases hop
+    | some x => obtain ⟨st1, n⟩ := x; simp [step, Lock.acquire, ho, hr]
+  | some u =>
+    have hd := ((hi.lock.reg u).1).1 ho
+    cases hp : st.pc u with
+    | inReg n => exact ⟨u, by simp [hp], canStep_regRel hi hp⟩
+    | _ => simp [hp, Pc.depth] at hd
+
+/-- the entry lock (if any) a thread is about to take without already holding it -/
+def Pc.waitsEnt : Pc → Option Sid
+  | .cAcq s c => if c.holds = true then none else some s
+  | .eAcq _ s => some s
+  | _ => none
+
+/-- a thread in the middle of an operation that is not waiting for an entry lock: it can step, or it waits for
+the registry lock whose holder can step -/
+theorem progress_nonwaiting {st : St} (hi : Inv st) {u : Tid} (hne : st.pc u ≠ .idle)
+    (hw : (st.pc u).waitsEnt = none) : ∃ v, st.pc v ≠ .idle ∧ CanStep st v := by
+  cases hp : st.pc u with
+  | idle => exact absurd hp hne
+  | inReg n => exact ⟨u, hne, canStep_regRel hi hp⟩
+  | getClock k s => exact ⟨u, hne, .readClock u st.clock, rfl, by simp [step, hp]⟩
+  | getAcq k s now =>
+    refine progress_reg hi hne ?_
+    rw [hp]; simp only [regOp]; (repeat' split) <;> rfl
+  | lostPending => exact ⟨u, hne, .lost u, rfl, by simp [step, hp]⟩
+  | cAcq s c =>
+    have hc : c.holds = true := by
+      rw [hp] at hw; simp only [Pc.waitsEnt] at hw
+      split at hw
+      · assumption
+      · cases hw
+    have ho := owner_of_holds hi (u := u) (s := s) (by simp [hp, Pc.holds, hc])
+    refine ⟨u, hne, .entAcq u s, rfl, ?_⟩
+    have ha : (st.ent s).acquire u = some ⟨some u, (st.ent s).count + 1⟩ := by
+      simp [RLock.acquire, ho]
+    simp only [step, ha, hp, if_true]
+    split <;> rfl
+  | cOpen s c => exact ⟨u, hne, .closeStart u s, rfl, by simp [step, hp]⟩
+  | cRun s c => exact ⟨u, hne, .closeEnd u s, rfl, by simp [step, hp]⟩
+  | cRel s c => exact ⟨u, hne, canStep_entRel hi (s := s) (by simp only [hp, Pc.holds, if_true]; split <;> omega) (Or.inl ⟨c, hp⟩)⟩
+  | eAcq k s => rw [hp] at hw; simp [Pc.waitsEnt] at hw
+  | liveAcq s => exact progress_reg hi hne (by rw [hp]; rfl)
+  | lostRel s => exact ⟨u, hne, canStep_entRel hi (s := s) (by simp [hp, Pc.holds]) (Or.inr (Or.inl hp))⟩
+  | ready s => exact ⟨u, hne, .dispatchBegin u s, rfl, by simp [step, hp]⟩
+  | disp s => exact ⟨u, hne, .mstep u, rfl, by simp [step, hp]⟩
+  | csAcq s c => exact progress_reg hi hne (by rw [hp]; simp only [regOp]; split <;> rfl)
+  | finRel s => exact ⟨u, hne, canStep_entRel hi (s := s) (by simp [hp, Pc.holds]) (Or.inr (Or.inr (Or.inl hp)))⟩
+  | delAcq s => exact progress_reg hi hne (by rw [hp]; simp only [regOp]; split <;> rfl)
+  | delRel s => exact ⟨u, hne, canStep_entRel hi (s := s) (by simp [hp, Pc.holds]) (Or.inr (Or.inr (Or.inr hp)))⟩
+  | sweepAcq now => exact progress_reg hi hne (by rw [hp]; rfl)
+  | shutAcq => exact progress_reg hi hne (by rw [hp]; rfl)
+  | openClock ttl pm => exact ⟨u, hne, .readClock u st.clock, rfl, by simp [step, hp]⟩
+  | openAlloc exp pm => exact ⟨u, hne, .allocSid u st.nextSid, rfl, by simp [step, hp]⟩
+  | openAcq s exp pm => exact progress_reg hi hne (by rw [hp]; rfl)
+  | openSeal s => exact ⟨u, hne, .readClock u st.clock, rfl, by simp [step, hp]⟩
+  | opened s => exact ⟨u, hne, .openDone u, rfl, by simp [step, hp]⟩
+
+/-- a thread that holds an entry lock is never waiting for another entry lock -/
+theorem waitsEnt_of_holds {p : Pc} {s : Sid} (hh : 0 < p.holds s) : p.waitsEnt = none := by
+  cases p with
+  | cAcq s' c =>
+    simp only [Pc.holds] at hh
+    split at hh
+    · rename_i hc; simp [Pc.waitsEnt, hc.2]
+    · omega
+  | eAcq k s' => simp [Pc.holds] at hh
+  | _ => rfl
+
+/-- **deadlock freedom**: in every reachable state in which some thread is in the middle of an operation, some
+such thread can take a step — there is no state in which every busy thread waits for a lock -/
+theorem C26_deadlock_free {st : St} (h : ts.Reachable st) {t : Tid} (hne : st.pc t ≠ .idle) :
+    ∃ u l st', st.pc u ≠ .idle ∧ l.tid = some u ∧ ts.step st l = some st' := by
+  have hi := C26_inv h
+  have key : ∃ v, st.pc v ≠ .idle ∧ CanStep st v := by
+    cases hw : (st.pc t).waitsEnt with
+    | none => exact progress_nonwaiting hi hne hw
+    | some s =>
+      -- t is about to take the entry lock of s
+      cases hacq : (st.ent s).acquire t with
+      | some l =>
+        refine ⟨t, hne, .entAcq t s, rfl, ?_⟩
+        cases hp : st.pc t with
+        | cAcq s' c =>
+          rw [hp] at hw; simp only [Pc.waitsEnt] at hw
+          split at hw
+          · cases hw
+          · simp only [Option.some.injEq] at hw; subst hw
+            simp only [step, hacq, hp, if_true]; split <;> rfl
+        | eAcq k s' =>
+          rw [hp] at hw; simp only [Pc.waitsEnt, Option.some.injEq] at hw; subst hw
+          simp [step, hacq, hp]
+        | _ => rw [hp] at hw; simp [Pc.waitsEnt] at hw
+      | none =>
+        -- the lock is held by another thread u, which is not waiting for an entry lock
+        unfold RLock.acquire at hacq
+        split at hacq
+        · cases hacq
+        · rename_i u hou
+          have hpos : 0 < (st.pc u).holds s := by
+            have h1 := hi.lock.ent.1 s u
+            have h2 := hi.lock.ent.2 s
+            rw [if_pos hou] at h1
+            have : (st.ent s).count ≠ 0 := fun e => by
+              have := h2.2 e; rw [hou] at this; cases this
+            omega
+          have hune : st.pc u ≠ .idle := by
+            intro e; rw [e] at hpos; simp [Pc.holds] at hpos
+          exact progress_nonwaiting hi hune (waitsEnt_of_holds hpos)
+  obtain ⟨v, hv, l, hl, hs⟩ := key
+  cases hst : step st l with
+  | none => rw [hst] at hs; cases hs
+  | some st' => exact ⟨v, l, st', hv, hl, hst⟩
+
+/-! ### non-vacuity -/
+
+/-- a step changes the program counter of the thread that performs it only -/
+theorem pc_frame {st st' : St} {l : Label} (h : ts.step st l = some st') {t : Tid} (ht : l.tid ≠ some t) :
+    st'.pc t = st.pc t := by
+  have htr : Trans st l st' := step_trans h
+  cases htr with
+  | tick d => rfl
+  | mstep => rfl
+  | regAcq _ hop =>
+    have hne : t ≠ _ := fun e => ht (by rw [e]; rfl)
+    simp only [upd_other _ _ hne]
+  | _ =>
+    have hne : t ≠ _ := fun e => ht (by rw [e]; rfl)
+    simp only [upd_other _ _ hne]
+
+theorem pc_frame_run {st st' : St} {ls : List Label} (h : ts.runFrom st ls = some st') {t : Tid}
+    (ht : ∀ l ∈ ls, l.tid ≠ some t) : st'.pc t = st.pc t := by
+  induction ls generalizing st with
+  | nil => simp only [TS.runFrom, Option.some.injEq] at h; rw [h]
+  | cons l r ih =>
+    simp only [TS.runFrom] at h
+    cases hst : ts.step st l with
+    | none => rw [hst] at h; cases h
+    | some m =>
+      rw [hst] at h
+      rw [ih h (fun x hx => ht x (List.mem_cons_of_mem _ hx)), pc_frame hst (ht l List.mem_cons_self)]
+
+/-- one thread opens a session (ttl 4), a request dispatches on it and closes it in the method; then shutdown -/
+def scenario : List Label :=
+  [.openBegin 5 4 true, .readClock 5 0, .allocSid 5 0, .regAcq 5, .regRel 5, .readClock 5 0, .openDone 5,
+   .reqBegin 5 0, .readClock 5 0, .regAcq 5, .regRel 5, .entAcq 5 0, .regAcq 5, .regRel 5, .dispatchBegin 5 0,
+   .mstep 5, .closeSession 5, .regAcq 5, .regRel 5, .entAcq 5 0, .closeStart 5 0, .closeEnd 5 0, .entRel 5 0,
+   .dispatchEnd 5 0, .entRel 5 0, .shutBegin 5, .regAcq 5, .regRel 5]
+
+example : ts.accepts scenario = true := by decide
+example : events scenario = [.dispatchBegin 5 0, .closeStart 5 0, .closeEnd 5 0, .dispatchEnd 5 0] := by decide
+
+/-- the hypotheses of `C26_close_exactly_once` are satisfiable: a reachable state at rest with an ended session -/
+example : ∃ st, ts.Reachable st ∧ Quiescent st ∧ Ended st 0 := by
+  have hacc : (ts.run scenario).isSome = true := by decide
+  obtain ⟨st, hst⟩ := Option.isSome_iff_exists.1 hacc
+  refine ⟨st, TS.reachable_of_run ts hst, ?_, ?_⟩
+  · intro t
+    by_cases ht : t = 5
+    · subst ht
+      have : (ts.run scenario).map (fun s => decide (s.pc 5 = .idle)) = some true := by decide
+      rw [hst] at this; simpa using this
+    · have := pc_frame_run (t := t) hst (by
+        intro l hl
+        simp only [scenario, List.mem_cons, List.not_mem_nil, or_false] at hl
+        rcases hl with rfl | rfl | rfl | rfl | rfl | rfl | rfl | rfl | rfl | rfl | rfl | rfl | rfl | rfl | rfl | rfl | rfl
+          | rfl | rfl | rfl | rfl | rfl | rfl | rfl | rfl | rfl | rfl | rfl <;>
+          simp only [Label.tid, Option.some.injEq, ne_eq] <;> exact fun e => ht e.symm)
+      rw [this]; rfl
+  · have : (ts.run scenario).map (fun s => decide (0 ∈ s.order) && !s.live 0) = some true := by decide
+    rw [hst] at this
+    simp only [Option.map_some, Option.some.injEq, Bool.and_eq_true, decide_eq_true_eq, Bool.not_eq_true'] at this
+    exact this
+
+/-- the hypothesis of `C26_deadlock_free` is satisfiable -/
+example : ∃ st t, ts.Reachable st ∧ st.pc t ≠ .idle := by
+  have hacc : (ts.run [.reqBegin 1 0]).isSome = true := by decide
+  obtain ⟨st, hst⟩ := Option.isSome_iff_exists.1 hacc
+  refine ⟨st, 1, TS.reachable_of_run ts hst, ?_⟩
+  have : (ts.run [.reqBegin 1 0]).map (fun s => decide (s.pc 1 = .idle)) = some false := by decide
+  rw [hst] at this
+  simpa using this
+
 end VgiVerif.C26
